@@ -5,6 +5,7 @@ import (
 	"fmt"
 	"strconv"
 	"strings"
+	"time"
 
 	"verif/harness/cmd/c02/ss"
 	c "verif/harness/common"
@@ -22,6 +23,7 @@ type OpSpec struct {
 type Hist struct {
 	CRL   bool // CRL enabled with GenerateOnRevoke
 	NX    int  // X.509 certificates
+	NXE   int  // further X.509 certificates (pool indices NX…) that expired 2 h .. 30 d ago; provisioner jwk allows renewal after expiry
 	NS    int  // SSH host certificates
 	Ops   []OpSpec
 	Sched []int
@@ -44,9 +46,13 @@ func runHist(h *Hist) (string, string) {
 	hooks := &ss.Hooks{}
 	e := newEnv(hooks, h.CRL)
 	defer func() { e.ca.Close() }()
-	xs := make([]*x509Cert, h.NX)
+	xs := make([]*x509Cert, h.NX+h.NXE)
 	for i := range xs {
-		xs[i] = e.issueX509()
+		if i < h.NX {
+			xs[i] = e.issueX509()
+		} else {
+			xs[i] = e.expiredX509([]time.Duration{2 * time.Hour, 25 * time.Hour, 720 * time.Hour}[(i-h.NX)%3])
+		}
 	}
 	sshs := make([]*sshCert, h.NS)
 	for i := range sshs {
@@ -324,6 +330,11 @@ func cornerHists() []*Hist {
 		// SSH: a revocation in any decimal spelling blocks renew and rekey, also after a restart; other spellings are refused
 		{NS: 2, Ops: []OpSpec{{"renewssh", 0, 0, "n"}, {"revssh", 0, 0, "n"}, {"renewssh", 0, 0, "n"}, {"rekeyssh", 0, 0, "n"}, {"revssh", 0, 0, "n"}, {"revssh", 1, 1, "n"}, {"renewssh", 1, 0, "n"}, {"renewssh", 0, 0, "n"}, {"revssh", 1, 2, "n"}, {"revssh", 1, 3, "n"}, {"revssh", 1, 4, "n"}},
 			Sched: append(append(append(seqSched(7), -1), 7, 7, 7), 8, 8, 8, 9, 9, 9, 10, 10, 10)},
+		// expired certificates (renewable after expiry; presented to the renew / rekey handlers as peer certificate — the renew-token
+		// route cannot be used for them here because the fixture's intermediate is younger than they are): renewed before, refused after the revocation
+		// (by token: expiry taken from the certificate table; over mTLS: from the presented certificate), also after a restart
+		{NXE: 2, Ops: []OpSpec{{"renew", 0, 0, "n"}, {"revtok", 0, 1, "n"}, {"renew", 0, 0, "n"}, {"rekey", 0, 0, "n"}, {"rekey", 1, 0, "n"}, {"revmtls", 1, 0, "n"}, {"renew", 1, 0, "n"}, {"renew", 0, 0, "n"}, {"rekey", 1, 0, "n"}},
+			Sched: append(append(seqSched(7), -1), 7, 7, 7, 8, 8, 8)},
 		// generate-on-revoke: regeneration failure after the record is stored
 		{CRL: true, NX: 2, Ops: []OpSpec{{"revtok", 0, 0, "c"}, {"renew", 0, 0, "n"}, {"revtok", 0, 0, "n"}, {"revmtls", 1, 0, "n"}, {"renew", 1, 0, "n"}}, Sched: seqSched(5)},
 	}
@@ -331,8 +342,11 @@ func cornerHists() []*Hist {
 
 func genHist(r *c.Rng) *Hist {
 	h := &Hist{CRL: r.Chance(1, 5), NX: 1 + r.Intn(4), NS: r.Intn(3)}
-	if h.NX+h.NS > 8 {
-		h.NS = 8 - h.NX
+	if r.Chance(1, 3) {
+		h.NXE = 1 + r.Intn(2)
+	}
+	if h.NX+h.NXE+h.NS > 8 {
+		h.NS = 8 - h.NX - h.NXE
 	}
 	n := 3 + r.Intn(8)
 	for i := 0; i < n; i++ {
@@ -345,10 +359,13 @@ func genHist(r *c.Rng) *Hist {
 				op.Spell = 1 + r.Intn(5)
 			}
 		} else {
-			op.Cert = r.Intn(h.NX)
+			op.Cert = r.Intn(h.NX + h.NXE)
 			op.Kind = c.Pick(r, []string{"revtok", "revtok", "revmtls", "revacme", "renew", "renew", "rekey", "renewtok"})
 			if op.Kind == "revtok" || op.Kind == "revmtls" {
 				op.Spell = r.Intn(8)
+			}
+			if op.Kind == "renewtok" && op.Cert >= h.NX {
+				op.Kind = "renew" // see cornerHists: expired certificates are older than the fixture's intermediate
 			}
 		}
 		op.Fault = "n"
